@@ -455,7 +455,11 @@ where
         let mut runner = TestRunner::new(cfg);
         let strat = (self.strat)(p.tier);
         let check = self.check;
-        let watch = self.watch;
+        // every case is published to the watchdog, whatever the sub-check's `watch` flag says (the flag dates from
+        // when publishing was thought costly; the case is serialised for the distinct-case count anyway). A looping
+        // mutant of KMP's failure links stalled C08/random, declared with watch: false, until the worker budget.
+        let _declared = self.watch;
+        let watch = true;
         let res = runner.run(&strat, |case| {
             let js = serde_json::to_string(&case).expect("case serialises");
             if watch {
